@@ -324,7 +324,13 @@ func RunC13(c *core.Ctx) {
 	}
 
 	flipEach := func(b []byte, from, to int, f func(m []byte)) {
+		// long inputs (the 20 kB payload): every position of the first and last 96 bytes (all structure lives there) and
+		// a random sample of the rest; flipping every bit of 20 kB for every key and AAD is billions of bytes of cases
+		long := to-from > 2000
 		for i := from; i < to && i < len(b); i++ {
+			if long && i-from >= 96 && to-i > 96 && c.Rng.Intn(64) != 0 {
+				continue
+			}
 			bits := []int{c.Rng.Intn(8)}
 			if allBits {
 				bits = []int{0, 1, 2, 3, 4, 5, 6, 7}
